@@ -19,8 +19,9 @@ def sh(cmd, **kw):
 def demo_cmake_args():
     """a demonstration that needs a non-default library configuration says so in a comment line `CMAKE_ARGS: -D...`"""
     try:
-        m_ = re.search(r"CMAKE_ARGS:\s*(.*)", open(os.path.join(seed, "demo.c")).read())
-        return m_.group(1).strip() if m_ else ""
+        m_ = re.search(r"CMAKE_ARGS:\s*(.*)", open(os.path.join(seed, "demo.c")).read()[:1500])
+        # only -D definitions count (the rest of such a line may be prose)
+        return " ".join(w for w in m_.group(1).split() if re.fullmatch(r"-D\w+=[\w.+-]*", w)) if m_ else ""
     except OSError:
         return ""
 
